@@ -209,17 +209,22 @@ Definition yielded (nl_kind : Z) (l : bytes) : bytes :=
 
 Section Splice.
 Variable nl_kind : Z.
-Variable resolve : bytes -> result bytes.            (* inc_path+ext -> full path (part 1) *)
+Variable have_root : bool.                            (* filename is not None: the assert at the first include line *)
+Variable decode : bytes -> result bytes.             (* the captured name (P8SCII bytes) -> the file name (UTF-8 bytes) *)
+Variable resolve : bytes -> result bytes.            (* file name + extension -> full path (part 1) *)
 Variable target : bytes -> bytes -> option (list bytes).   (* full path, extension -> lines the target yields *)
 
 Definition is_cart_ext (ext : bytes) : bool := zlist_eqb ext ext_p8 || zlist_eqb ext ext_p8png.
 
 Definition include_lines (path ext : bytes) (tab : option Z) : result (list bytes) :=
-  p <- resolve (path ++ ext) ;;
-  match target p ext with
-  | None => Err OtherError      (* isfile said yes but the file cannot be read / is not a cart: not modelled *)
-  | Some ls => Ok (map (yielded nl_kind) (if is_cart_ext ext then lines_for_tab ls tab else ls))
-  end.
+  if negb have_root then Err AssertionError
+  else
+    nm <- decode path ;;
+    p <- resolve (nm ++ ext) ;;
+    match target p ext with
+    | None => Err OtherError      (* isfile said yes but the file cannot be read / is not a cart: not modelled *)
+    | Some ls => Ok (map (yielded nl_kind) (if is_cart_ext ext then lines_for_tab ls tab else ls))
+    end.
 
 Fixpoint process_includes (lines : list bytes) : result (list bytes) :=
   match lines with
